@@ -167,7 +167,7 @@ static void run() {
             Config cfg{(bool)serial, (bool)mem16, (int)(bs % 3 == 2 ? 5 : bs % 2), raw.size() - 1 + (size_t)fit, 0};   // capacity = block_extra + 1
             run_case(cfg, rp::on_wire(serial, raw), "all-types-and-options-in-exact-fit-blocks");
         }
-    if (a.shard == a.nshards - 1) giant_frames();
+    if (a.shard == a.nshards - 1 && !vp::vg().on) giant_frames();
     // random mutated streams
     size_t nrand = (T ? 400000 : 40000) / a.nshards;
     for (size_t i = 0; i < nrand && !vp::too_many_failures(); i++) {
